@@ -10,7 +10,7 @@ from numpy import array
 
 # Local Imports
 from ..data.ephemeris import TruthEphemeris
-from ..physics.time.stardate import JulianDate
+from ..physics.time.stardate import JulianDate, datetimeToJulianDate
 from ..physics.transforms.methods import ecef2lla, eci2ecef
 from ..sensors import sensorFactory
 from ..sensors.sensor_base import Sensor
@@ -167,13 +167,13 @@ class SensingAgent(Agent):
 
     def pruneTimeBiasEvents(self) -> None:
         """Remove events from the queue that happened in the past."""
+        # Event Julian dates are converted from calendar instants, so convert the current epoch the same way:
+        # an event that starts or ends exactly on this epoch then compares equal (no one-ulp disagreement).
+        epoch_jd = datetimeToJulianDate(self.datetime_epoch)
         self.sensor_time_bias_event_queue = [
             event
             for event in self.sensor_time_bias_event_queue
-            if (
-                self.julian_date_epoch <= event.end_time_jd
-                and self.julian_date_epoch >= event.start_time_jd
-            )
+            if (epoch_jd <= event.end_time_jd and epoch_jd >= event.start_time_jd)
         ]
 
     def updateInfo(self, sensor_change):
